@@ -1014,7 +1014,7 @@ impl IoUring {
         let shift = u32::from(self.flags.contains(IoUringParamFlags::IORING_SETUP_CQE32));
         let tail = self.completion_queue.acquire_ktail();
         let head = self.completion_queue.acquire_khead();
-        if tail <= head {
+        if tail == head {
             return None;
         }
         let ind = ((head & self.completion_queue.ring_mask) << shift) as usize;
